@@ -76,7 +76,7 @@ from runner import Infra
 ID = "C16"
 LEAN_MODULES = ["PyYetiVerif.Props.C16", "PyYetiVerif.Props.C16Full", "PyYetiVerif.Props.C16FullRoutine", "PyYetiVerif.Props.C16Pipe",
                 "PyYetiVerif.Props.C16Psd", "PyYetiVerif.Props.C16FullRf", "PyYetiVerif.Props.C16Stat", "PyYetiVerif.Props.C16Tree",
-                "PyYetiVerif.Props.C16Heap", "PyYetiVerif.Audit.C16"]
+                "PyYetiVerif.Props.C16Heap", "PyYetiVerif.Props.C16Labels", "PyYetiVerif.Props.C16Split", "PyYetiVerif.Audit.C16"]
 AUDIT_FILE = "PyYetiVerif/Audit/C16.lean"
 THEOREMS = [
     "PyYetiVerif.C16." + n
@@ -96,7 +96,11 @@ THEOREMS = [
         "stat_ext_def stat_ext_order_independent stat_ext_monotone_in_k "
         "form_extreme_idempotent form_extreme_keeps_parts delete_extreme_spec nested_traversal_order "
         "form_extreme_flat_is_envelope form_extreme_does_not_modify_parts aliased_first_call_modifies_part "
-        "psd_srs_env_is_max_over_cases psd_srs_case_scaling heap_run_is_run2 nested_envelope_is_recursive_extrema"
+        "psd_srs_env_is_max_over_cases psd_srs_case_scaling heap_run_is_run2 nested_envelope_is_recursive_extrema "
+        "merge_lists_spec form_extreme_by_label form_extreme_row_is_first_best form_extreme_label_order "
+        "expand_missing_rows_neutral form_extreme_event_order_values_independent form_extreme_refuses_repeated_labels "
+        "form_extreme_needs_percase_columns abscissa_none_first_counterexample cases_label_matches_column "
+        "split_pairs_cases_with_columns uf_reds_none_entries_counterexample uf_reds_none_entries_documented_partial"
     ).split()
 ]
 TRUSTED = [
@@ -2183,6 +2187,88 @@ def lab_specs(rng, n):
     return out
 
 
+
+# ---------------------------------------------------------------------------------------
+# DR_Results.split (split stream, Model/ExtremaSplit.lean) and DR_Def.add's uf_reds defaults (ufdef stream)
+
+
+def split_io(spec, res, short):
+    """requests (one per row, from the implementation's own per-case columns and label list) and the comparison data"""
+    cat = res["cat"]
+    n = len(cat.cases)
+    reqs = []
+    for i in range(spec["rows"]):
+        reqs.append("split ; " + " ; ".join("%s %s %s %s %s" % (
+            cat.cases[j] if isinstance(cat.cases[j], str) else "-", ftok(cat.mx[i, j]), ftok(cat.mn[i, j]),
+            ftok(cat.mx_x[i, j]), ftok(cat.mn_x[i, j])) for j in range(n)))
+    try:
+        with warnings.catch_warnings():
+            warnings.simplefilter("ignore")
+            sp = res.split()
+    except TypeError:
+        return reqs, ["type-error"] * len(reqs)
+    want = []
+    for i in range(spec["rows"]):
+        want.append(" , ".join("%s %s %s %s %s" % (k, ftok(v["cat"].ext[i, 0]), ftok(v["cat"].ext[i, 1]),
+                                                   ftok(v["cat"].ext_x[i, 0]), ftok(v["cat"].ext_x[i, 1]))
+                               for k, v in sp.items()))
+    return reqs, want
+
+
+_UFD = [1, 1, 1.25, 1.5, 0, 2, 0.5, None]
+
+
+def gen_ufdef(rng):
+    defaults = None if rng.random() < 0.25 else [rng.choice(_UFD) for _ in range(4)]
+    k = rng.random()
+    given = None if k < 0.25 else [rng.choice(_UFD + [None, None]) for _ in range(4)]
+    return {"kind": "ufdef", "defaults": defaults, "given": given}
+
+
+def ufdef_impl(spec):
+    from pyyeti import cla
+
+    dflt = dict(se=0)
+    if spec["defaults"] is not None:
+        dflt["uf_reds"] = tuple(spec["defaults"])
+    with warnings.catch_warnings():
+        warnings.simplefilter("ignore")
+        drdefs = cla.DR_Def(dflt)
+        drdefs.add(name="cat", desc="toy category", labels=2, drfunc="no-func",
+                   uf_reds=None if spec["given"] is None else tuple(spec["given"]))
+        DR = cla.DR_Event()
+        DR.add(None, drdefs)
+    return tuple(drdefs["cat"].uf_reds), list(DR.UF_reds)
+
+
+def _uftok(t):
+    return "-" if t is None else " ".join("none" if v is None else str(Fraction(v)) for v in t)
+
+
+def oracle_ufdef(spec):
+    try:
+        got, used = ufdef_impl(spec)
+    except Exception as e:
+        return [("drdef-add-uf-reds-raises-%s" % type(e).__name__, "DR_Def.add raises on a documented uf_reds form", spec,
+                 repr(e), "a 4-tuple")]
+    d = spec["defaults"] if spec["defaults"] is not None else [None] * 4
+    g = spec["given"] if spec["given"] is not None else [None] * 4
+    want = tuple(gv if gv is not None else (dv if dv is not None else 1) for dv, gv in zip(d, g))
+    fails = []
+    if tuple(got) != want:
+        only_none_entries = spec["given"] is not None and all(
+            a == b for a, b, gv in zip(got, want, g) if gv is not None) and all(
+            a == 1 for a, gv in zip(got, g) if gv is None)
+        fam = "drdef-add-uf-reds-none-entry-ignores-defaults" if only_none_entries else "drdef-add-uf-reds-wrong"
+        fails.append((fam, "DR_Def.add(uf_reds=%r) with defaults['uf_reds'] = %r stores %r; documented: None entries are "
+                      "reset to the corresponding entry of defaults (or 1 if that is None too): %r"
+                      % (spec["given"], spec["defaults"], got, want), spec, list(got), list(want)))
+    elif tuple(got) not in [tuple(u) for u in used]:
+        fails.append(("drdef-uf-reds-not-used-by-event", "DR_Event.UF_reds does not list the category's factors", spec,
+                      used, list(got)))
+    return fails
+
+
 # ---------------------------------------------------------------------------------------
 # correspondence
 
@@ -2382,6 +2468,18 @@ def correspondence(ctx):
     for _ in range(ctx.pick(400, 2500)):
         m = gen_mergelists(rng)
         add("mergelists", m, ["mergelists ; %s ; %s" % (" ".join(m["l1"]), " ".join(m["l2"]))], None)
+    for _ in range(ctx.pick(250, 1500)):
+        e = gen_event(rng, dup=False, srs=False)
+        n = len(e["labels"])
+        short = n > 2 and rng.random() < 0.15
+        res, DR, err = build_event(e, order=list(range(n - 1)) if short else None)
+        if err:
+            raise Infra("toy event refused: %s" % err)
+        rq, want = split_io(e, res, short)
+        add("split", dict(e, short=short), rq, want)
+    for _ in range(ctx.pick(300, 2000)):
+        u = gen_ufdef(rng)
+        add("ufdef", u, ["ufdef ; %s ; %s" % (_uftok(u["defaults"]), _uftok(u["given"]))], None)
 
     rep = drv.ask(reqs)
     ctx.extra["driver_requests"] = len(reqs)
@@ -2582,6 +2680,27 @@ def correspondence(ctx):
             bad = labform_compare(spec, reqs[i0:i0 + cnt], want, got)
             if bad is not None:
                 ctx.disagree("labform", spec, {k: v for k, v in bad.items() if k != "model"}, bad.get("model"))
+        elif stream == "split":
+            ctx.case(("split", spec), nontrivial=not spec["short"], branch="stream:split")
+            if spec["short"]:
+                ctx.count("branch:split-unfilled-column-refused")
+            if spec["js"] != sorted(spec["js"]):
+                ctx.count("branch:split-permuted-j")
+            if got != payload:
+                bad = next(j for j in range(cnt) if got[j] != payload[j])
+                ctx.disagree("split", spec, {"row": bad, "impl": payload[bad]}, {"row": bad, "model": got[bad]})
+        elif stream == "ufdef":
+            ctx.case(spec, nontrivial=spec["given"] is not None, branch="stream:ufdef")
+            if spec["given"] is not None and any(v is None for v in spec["given"]):
+                ctx.count("branch:ufdef-none-entry")
+            if spec["defaults"] is None:
+                ctx.count("branch:ufdef-no-defaults")
+            try:
+                impl = " ".join("%d/%d" % Fraction(v).as_integer_ratio() for v in ufdef_impl(spec)[0])
+            except Exception as e:
+                impl = "exception:" + type(e).__name__
+            if impl != got[0]:
+                ctx.disagree("ufdef", spec, impl, got[0])
         elif stream == "mergelists":
             from pyyeti import locate
 
@@ -2669,7 +2788,9 @@ def correspondence(ctx):
         "branch:heap-form-label-lists-handed-in", "stream:psd-srs", "stream:psd-srs-env", "branch:psd-srs-eqsine",
         "branch:psd-srs-resp-time", "branch:psd-srs-with-apply-uf", "branch:psd-use-apply-uf", "branch:psd-use-apply-uf-rf",
         "branch:stat-ext-srs",
-        "stream:labform", "stream:mergelists", "branch:mergelists-repeated-items",
+        "stream:labform", "stream:mergelists", "branch:mergelists-repeated-items", "stream:split",
+        "branch:split-unfilled-column-refused", "branch:split-permuted-j", "stream:ufdef", "branch:ufdef-none-entry",
+        "branch:ufdef-no-defaults",
         "branch:labels-identical", "branch:labels-permuted", "branch:labels-subset", "branch:labels-superset",
         "branch:labels-superset-same-order", "branch:labels-disjoint", "branch:labels-overlap",
         "branch:labels-identical-repeated", "branch:labels-repeated-refused", "branch:labels-keyerror-no-mx",
@@ -2922,6 +3043,37 @@ def oracle_event(spec):
             if not np.array_equal(env, cat.srs.ext[q], equal_nan=True):
                 fails.append(("dr-%s-srs-envelope" % dom, "srs.ext[%s] is not the maximum over the cases" % q, spec,
                               cat.srs.ext[q].tolist(), env.tolist()))
+    # split(): every case gets its own columns, named with its own label (label list indexed by case number)
+    if not fails:
+        try:
+            with warnings.catch_warnings():
+                warnings.simplefilter("ignore")
+                sp = copy.deepcopy(res).split()
+        except Exception as e:
+            sp = None
+            fails.append(("dr-%s-split-raises-%s" % (dom, type(e).__name__), "split() raises on a completed event", spec, repr(e), None))
+        if sp is not None:
+            if list(sp.keys()) != want_cases:
+                fails.append(("dr-%s-split-keys" % dom, "split() keys are not the cases in case-number order", spec,
+                              list(sp.keys()), want_cases))
+            else:
+                for k in range(n):
+                    c = sp[spec["labels"][k]]["cat"]
+                    wm = [[_fmax(R[k][i].tolist()), (-_fmax(R[k][i].tolist()) if dom == "frf" else _fmin(R[k][i].tolist()))]
+                          for i in range(spec["rows"])]
+                    ok = list(c.cases) == [spec["labels"][k]] and all(
+                        _same(float(c.ext[i, col]), wm[i][col]) and _same(float(c.mx[i, 0]), wm[i][0])
+                        and _same(float(c.mn[i, 0]), wm[i][1]) for i in range(spec["rows"]) for col in (0, 1))
+                    name = "hist" if dom == "time" else "frf"
+                    if ok and spec["histpv"] is not None and dom == "time":
+                        pv = slice(None) if spec["histpv"] == "all" else [0]
+                        h = getattr(c, name)
+                        ok = h.shape[0] == 1 and np.array_equal(h[0], event_resp(spec, k)[pv], equal_nan=True)
+                    if not ok:
+                        fails.append(("dr-%s-split-case-holds-another-cases-data" % dom, "split()[%r] does not hold the extremes / "
+                                      "history of the case recovered under that label (case number %d)"
+                                      % (spec["labels"][k], spec["js"][k]), spec, [c.ext.tolist(), list(c.cases)], wm))
+                        break
     # calc_ext recomputes the same extreme values from the per-case columns
     if not fails:
         rc = copy.deepcopy(res)
@@ -3744,7 +3896,7 @@ def oracle_mergelists(spec):
 _ORACLES = {"ext1": oracle_hist, "ext2": oracle_hist, "mm": oracle_mm, "event": oracle_event,
             "form": oracle_form, "uf": oracle_uf, "psd": oracle_psd, "merge": oracle_merge, "calc": oracle_calc,
             "stat": oracle_calc, "addmm": oracle_addmm, "tree": oracle_tree, "labform": oracle_labform,
-            "mergelists": oracle_mergelists}
+            "mergelists": oracle_mergelists, "ufdef": oracle_ufdef}
 
 
 def _run_oracle(ctx, spec):
@@ -3795,6 +3947,8 @@ def search(ctx, hints):
         _run_oracle(ctx, spec)
     for _ in range(ctx.pick(300, 2000)):
         _run_oracle(ctx, gen_mergelists(rng))
+    for _ in range(ctx.pick(200, 1200)):
+        _run_oracle(ctx, gen_ufdef(rng))
 
 
 def replay(ctx, data):
